@@ -226,7 +226,9 @@ def decrypt(case, ctx):
         v = u(case["v"])
         opts = [("y+1", (x1, (y1 + 1) % M.P)), ("y-1", (x1, (y1 - 1) % M.P)), ("neg-y", (x1, M.P - y1)), ("zero", (0, 0)), ("x>=p", (M.P + (v % (gen.R256 - M.P)), y1)),
                 ("y>=p", (x1, M.P + (v % (gen.R256 - M.P)))), ("x=p", (M.P, y1)), ("random", (v % M.P, y1)), ("x+p", (x1 + M.P if x1 + M.P < gen.R256 else x1 ^ 1, y1)),
-                ("swap", (y1, x1)), ("y=0", (x1, 0)), ("small-x", None), ("small-x+p", None), ("small-y", None), ("small-y+p", None), ("zero-consistent", "inf")]
+                ("swap", (y1, x1)), ("y=0", (x1, 0)), ("small-x", None), ("small-x+p", None), ("small-y", None), ("small-y+p", None), ("zero-consistent", "inf"),
+                # the two curve points with x = 0 (b is a square): finite points whose x is the x of the (0,0) encoding of infinity
+                ("x0-x", None), ("x0-x", None), ("x0-x+p", None)]
         lab, xy = opts[sel % len(opts)]
         if xy == "inf":
             # C1 = (0,0) with C2, C3 computed as if [d]C1 were the point "at infinity" with coordinates (0,0): consistent under every
@@ -241,12 +243,12 @@ def decrypt(case, ctx):
         elif xy is None:
             # C1 with a coordinate < 2^256 - p (no nonce is known for such a point; the ciphertext is built with the private key):
             # the reduced encoding is a valid ciphertext, the same coordinate written as c + p is not a field element
-            sp = M.small_x_point(v) if "-x" in lab else M.small_y_point(v)
+            sp = M.small_x_point(v % 2) if lab.startswith("x0") else M.small_x_point(v) if "-x" in lab else M.small_y_point(v)
             ct = M.encrypt_to_c1(d, sp, pt)
             if ct is None:
                 ctx.note("kdf-all-zero"); return
             c3, c2 = ct
-            xy = (sp[0] + (M.P if lab == "small-x+p" else 0), sp[1] + (M.P if lab == "small-y+p" else 0))
+            xy = (sp[0] + (M.P if lab in ("small-x+p", "x0-x+p") else 0), sp[1] + (M.P if lab == "small-y+p" else 0))
         xx, yy = xy
         cand = D.enc_ct(xx, yy, c3, c2)
         lab = "c1/" + lab
@@ -300,7 +302,9 @@ def decrypt(case, ctx):
 
 # ---------------------------------------------------------------------------
 ecdh_case = st.fixed_dictionaries({"da": gen.scalar_d(), "db": gen.scalar_d(), "form": st.sampled_from(["04", "04", "compressed", "06/07"]),
-                                   "lam": gen.z256(M.P)})
+                                   "lam": gen.z256(M.P),
+                                   # the peer's share is any curve point: also constructed ones with a small x (x = 0 first) or a small y
+                                   "peer": st.sampled_from(["pub", "pub", "pub", "x0", "x0", "small-x", "small-y"]), "psel": st.integers(0, 63)})
 
 
 @P.sub("ecdh", ecdh_case, quick=1200, thorough=60000)
@@ -311,7 +315,8 @@ def ecdh(case, ctx):
     pa, pb = M.pub_of(da), M.pub_of(db)
     exp = M.mul(da * db % M.N, M.G)
     lam = u(case["lam"]) or 1
-    ctx.case(nontrivial=gen.in_pool(da, (M.N,)) or gen.in_pool(db, (M.N,)) or case["form"] != "04", classes=[case["form"]], ident=case, sample=case)
+    peer = case.get("peer", "pub")
+    ctx.case(nontrivial=gen.in_pool(da, (M.N,)) or gen.in_pool(db, (M.N,)) or case["form"] != "04" or peer != "pub", classes=[case["form"], "peer:" + peer], ident=case, sample=case)
 
     def octets(pt):
         x, y = M.i2b(pt[0]), M.i2b(pt[1])
@@ -321,6 +326,25 @@ def ecdh(case, ctx):
             return bytes([2 + (pt[1] & 1)]) + x
         return bytes([6 + (pt[1] & 1)]) + x + y
     ka, kb = key_in(da, pa), key_in(db, pb)
+    if peer != "pub":
+        q = M.small_x_point(case["psel"] % 2) if peer == "x0" else M.small_x_point(case["psel"]) if peer == "small-x" else M.small_y_point(case["psel"])
+        expq = M.mul(da, q)
+        fo = octets(q)
+        oq = Buf(64, fill=0)
+        rq = l.sm2_ecdh(ka, Buf.of(fo), len(fo), oq)
+        if case["form"] == "06/07" and rq != 1:
+            ctx.note("hybrid-form-refused")
+        else:
+            e = M.i2b(expq[0]) + M.i2b(expq[1])
+            ctx.check(rq == 1 and oq.raw() == e, "sm2_ecdh with the peer share (%x, %x) in form %s: ret=%d value %s, [d]Q is %s" %
+                      (q[0], q[1], case["form"], rq, oq.raw().hex(), e.hex()), "ecdh/constructed-peer/%s/%s" % (peer, case["form"]))
+        for z in (1, lam):
+            out = Buf(96, fill=0)
+            r = l.sm2_do_ecdh(ka, pt_in(q, z), out)
+            got, ok = pt_get(out)
+            ctx.check(r == 1 and got == expq, "sm2_do_ecdh with the peer point (%x, %x), Z %s 1: got %s expected %s" % (q[0], q[1], "=" if z == 1 else "!=", got, expq),
+                      "ecdh/do_ecdh/constructed-peer/%s" % peer)
+        return
     oa = Buf(64, fill=0); ob = Buf(64, fill=0)
     fo = octets(pb)
     ra = l.sm2_ecdh(ka, Buf.of(fo), len(fo), oa)
@@ -337,6 +361,46 @@ def ecdh(case, ctx):
     r = l.sm2_do_ecdh(ka, pt_in(pb, lam), out)
     got, ok = pt_get(out)
     ctx.check(r == 1 and got == exp, "sm2_do_ecdh got %s expected %s" % (got, exp), "ecdh/do_ecdh")
+
+
+# ---------------------------------------------------------------------------
+rcpt_case = st.fixed_dictionaries({"kind": st.sampled_from(["x0", "x0", "small-x", "small-y"]), "psel": st.integers(0, 63), "k": gen.z256(M.N),
+                                   "n": st.sampled_from([1, 16, 32, 33, 100, 255]), "seed": st.integers(0, 1 << 32), "iface": st.sampled_from(["encrypt", "do_encrypt"])})
+
+
+@P.sub("recipient", rcpt_case, quick=300, thorough=12000)
+def recipient(case, ctx):
+    """encryption to a constructed recipient point (small x, x = 0 first, or small y; nobody knows its private key) under a scripted
+    nonce: the ciphertext must be the GB/T value (C1 = [k]G, KDF and hash over [k]P)"""
+    l = lib(ctx.variant)
+    sh = shim()
+    q = M.small_x_point(case["psel"] % 2) if case["kind"] == "x0" else M.small_x_point(case["psel"]) if case["kind"] == "small-x" else M.small_y_point(case["psel"])
+    k = u(case["k"]) % M.N or 1
+    n = case["n"]
+    pt = _pt(n, case["seed"], 0)
+    ctx.case(nontrivial=True, classes=["rcpt:" + case["kind"], case["iface"]], ident=case, sample=case)
+    mc = M.encrypt_with_k(q, pt, k)
+    if mc is None:
+        ctx.note("kdf-all-zero"); return
+    pubkey = key_in(None, q)
+    sh.stream(case["seed"], k.to_bytes(32, "little"))
+    try:
+        if case["iface"] == "encrypt":
+            out = Buf(366, fill=0); ol = ctypes.c_size_t(0)
+            r = l.sm2_encrypt(pubkey, Buf.of(pt), n, out, ctypes.byref(ol))
+            p = D.parse_ct(out.raw(ol.value)) if r == 1 else None
+        else:
+            cb = Buf(sizeof("SM2_CIPHERTEXT"), fill=0)
+            r = l.sm2_do_encrypt(pubkey, Buf.of(pt), n, cb)
+            p = _ct_struct_get(cb) if r == 1 else None
+    finally:
+        sh.reset()
+    ctx.check(r == 1 and p is not None, "encryption to the recipient point (%x, %x) failed: ret=%d" % (q[0], q[1], r), "rcpt/ret")
+    x1, y1, c3, c2 = p
+    if (x1, y1) != mc[0]:
+        ctx.note("nonce-mapping-not-observed"); return
+    ctx.check(bytes(c3) == mc[1] and bytes(c2) == mc[2], "ciphertext for the recipient point (%x, %x) and the observed nonce %x differs from the GB/T value" % (q[0], q[1], k),
+              "rcpt/gbt-value/" + case["kind"])
 
 
 # ---------------------------------------------------------------------------
